@@ -24,7 +24,12 @@ TAGS = [(None, None, None), ("EBLIF.subckt", "EBLIF.gate", "EBLIF.subckt"), ("EB
 
 def jobs(tier):
     out = []
-    for tags in TAGS:
+    tags_list = list(TAGS)
+    if tier == "thorough":
+        import itertools
+        opts = (None, "EBLIF.subckt", "EBLIF.gate", "EBLIF.other")
+        tags_list = [t for t in itertools.product(opts, repeat=3)]
+    for tags in tags_list:
         out.append(dict(name="C16/eblif{%s}" % ",".join("-" if t is None else t.split(".")[1] for t in tags),
                         engine="E1/symheap", module="vf.e1.compose_jobs", func="eblif_compose_job", timeout=3000,
                         args=dict(tier=tier, tags=list(tags))))
